@@ -6,6 +6,7 @@ import (
 	"go/parser"
 	"go/token"
 	"path/filepath"
+	"slices"
 
 	"github.com/bmatcuk/doublestar/v4"
 	MapSet "github.com/deckarep/golang-set/v2"
@@ -47,9 +48,17 @@ func (facade *PackagesFacade) FSet() *token.FileSet {
 }
 
 func (facade *PackagesFacade) GetAllSourceFiles() []*ast.File {
-	result := make([]*ast.File, 0, len(facade.files))
-	for _, file := range facade.files {
-		result = append(result, file)
+	// Iterate in file name order, not in map order, so that everything derived from the order in which
+	// files are visited (route order, import serials) is the same on every run
+	fileNames := make([]string, 0, len(facade.files))
+	for fileName := range facade.files {
+		fileNames = append(fileNames, fileName)
+	}
+	slices.Sort(fileNames)
+
+	result := make([]*ast.File, 0, len(fileNames))
+	for _, fileName := range fileNames {
+		result = append(result, facade.files[fileName])
 	}
 	return result
 }
